@@ -48,6 +48,10 @@ def run(ctx):
                         'what the leader loop does after campaigning / losing the lease (initialise the allocator, enable the leader; reset '
                         'allocator and leadership) is performed by the harness in the order server.go uses']
     ctx.mc('election', 'Election', 'MC_Election.cfg', timeout=900)
+    # the same actions without the bound on the number of steps, discharged symbolically
+    for init, inv, n in (('Init', 'IndInv', 0), ('IndInv', 'IndInv', 1), ('IndInv', 'AtMostOneServing', 0),
+                         ('IndInv', 'NonOwnerWriteRejectedAct', 1), ('IndInv', 'CampaignOnlyWhenNoRecordAct', 1)):
+        ctx.apalache('election', 'ElectionInd', init, inv, n)
     seeds = [ctx.seed] if q else [ctx.seed + k for k in range(3)]
     for sd in seeds:
         behs = ctx.simulate('election', 'Election', 'Sim_Election.cfg', num=48 if q else 240, depth=14, seed=sd)
